@@ -35,6 +35,9 @@ def scenarios(tier, seed):
                                                                         {"iter": 6, "do": "small", "cell": 3}, {"iter": 6, "do": "small", "cell": 4}], T=1200))
     out.append(sc("remove_run", [tc.cell(i, i * far) for i in range(5)], [{"iter": 1, "do": "small", "cell": c} for c in (0, 1, 2, 3)], T=800))
     out.append(sc("remove_all", [tc.cell(i, i * far) for i in range(3)], [{"iter": 1, "do": "small", "cell": c} for c in (0, 1, 2)], T=600))
+    # growth rates far below the shipped ones (a cell of 1e-15 m^3 with a cycle of hours grows at about 5e-20 m^3/s): the law is the same
+    # at every magnitude -- an absolute tolerance on the rate would freeze these cells
+    out.append(sc("tinygrow", [tc.cell(0, 0, growth=5e-20), tc.cell(1, far, growth=-5e-20), tc.cell(2, 2 * far, growth=1e-17), tc.cell(3, 3 * far, growth=-3e-16)], T=1200))
     if tier == "thorough":
         rnd = random.Random(seed)
         for k in range(6):
